@@ -135,7 +135,21 @@ func genC14Stmt(r *Rng, reading bool) c14Stmt {
 func genEquivPair(r *Rng) ([]string, []string) {
 	k1, k2, k3 := 1+r.Intn(3), 4+r.Intn(3), 7+r.Intn(3)
 	w := func(i int) string { return []string{"one", "two", "three", "four"}[i%4] }
-	switch r.Intn(7) {
+	switch r.Intn(10) {
+	case 7:
+		// a cursor's rows are fixed at OPEN: an UPDATE of the table in between does not change what FETCH returns
+		pre := "UPDATE a SET v = v WHERE id = -1; DECLARE cq CURSOR FOR SELECT id, v FROM a ORDER BY id; OPEN cq; VAR @a1, @a2, @b1, @b2;"
+		post := "CLOSE cq; DISPOSE CURSOR cq; INSERT INTO a VALUES (9100, 0, @a2, 'c1'), (9101, 0, @b2, 'c2'); DISPOSE @a1; DISPOSE @a2; DISPOSE @b1; DISPOSE @b2;"
+		return []string{pre + " UPDATE a SET v = IFNULL(v, 0) + 1000; FETCH cq INTO @a1, @a2; FETCH cq INTO @b1, @b2; " + post},
+			[]string{pre + " FETCH cq INTO @a1, @a2; FETCH cq INTO @b1, @b2; UPDATE a SET v = IFNULL(v, 0) + 1000; " + post}
+	case 8:
+		// every SET expression sees the row as it was before the statement
+		return []string{"UPDATE a SET v = g, g = v;"},
+			[]string{"ALTER TABLE a ADD oldv DEFAULT v; UPDATE a SET v = g; UPDATE a SET g = oldv; ALTER TABLE a DROP oldv;"}
+	case 9:
+		// ... and a sub-query on the updated table sees the table as it was
+		return []string{"UPDATE a SET v = (SELECT MAX(v) FROM a) + id;"},
+			[]string{"VAR @mx := (SELECT MAX(v) FROM a); UPDATE a SET v = @mx + id; DISPOSE @mx;"}
 	case 0:
 		return []string{"PREPARE up FROM 'UPDATE a SET s = ? WHERE id = ?'; EXECUTE up USING '" + w(k1) + "', " + fmt.Sprint(k1) + "; EXECUTE up USING '" + w(k2) + "', " + fmt.Sprint(k2) + "; EXECUTE up USING @x, " + fmt.Sprint(k3) + "; DISPOSE PREPARE up;"},
 			[]string{fmt.Sprintf("UPDATE a SET s = '%s' WHERE id = %d; UPDATE a SET s = '%s' WHERE id = %d; UPDATE a SET s = 'dog' WHERE id = %d;", w(k1), k1, w(k2), k2, k3)}
